@@ -25,6 +25,28 @@ MENUS = [None, ['aes128', 'aes128gcm'], ['aes256gcm', 'aes128gcm'], ['chacha20-p
          ['aes128gcm', 'chacha20-poly1305'], ['aes256', 'aes128'], ['aes128', 'aes128gcm', 'aes256gcm'],
          ['aes256gcm']]
 VER = {1: (3, 1), 2: (3, 2), 3: (3, 3), 4: (3, 4)}
+SRPU = [None, 'test', 'other']          # SRP user handles; password = user + '-pw'
+KINDS = ['cert', 'srp', 'anon']          # client flavour (ev['kind']) / server credentials (cfg['auth'])
+_VDB = []
+
+
+def verifier_db():
+    if not _VDB:
+        from tlslite.api import VerifierDB
+        db = VerifierDB()
+        db.create()
+        for u in SRPU[1:]:
+            db[u.encode()] = VerifierDB.makeVerifier(u.encode(), (u + '-pw').encode(), 1024)
+        _VDB.append(db)
+    return _VDB[0]
+
+
+def srp_handle(name):
+    if not name:
+        return 0
+    if isinstance(name, (bytes, bytearray)):
+        name = bytes(name).decode()
+    return SRPU.index(name) if name in SRPU else 99
 
 
 def key_bytes(k):
@@ -50,29 +72,43 @@ def server_settings(cfg):
     return s
 
 
-def client_suites(cs):
-    """The suites a certificate client offers (what _clientSendClientHello builds)."""
+def client_suites(cs, kind=0):
+    """The suites the client offers (what _clientSendClientHello builds) for a cert / SRP / anonymous client."""
     v = cs.validate()
     out = [CipherSuite.TLS_EMPTY_RENEGOTIATION_INFO_SCSV]
-    out += CipherSuite.getTLS13Suites(v)
-    out += CipherSuite.getEcdsaSuites(v)
-    out += CipherSuite.getEcdheCertSuites(v)
-    out += CipherSuite.getDheCertSuites(v)
-    out += CipherSuite.getCertSuites(v)
-    out += CipherSuite.getDheDsaSuites(v)
+    if kind == 1:
+        out += CipherSuite.getSrpAllSuites(v)
+    elif kind == 2:
+        out += CipherSuite.getEcdhAnonSuites(v)
+        out += CipherSuite.getAnonSuites(v)
+    else:
+        out += CipherSuite.getTLS13Suites(v)
+        out += CipherSuite.getEcdsaSuites(v)
+        out += CipherSuite.getEcdheCertSuites(v)
+        out += CipherSuite.getDheCertSuites(v)
+        out += CipherSuite.getCertSuites(v)
+        out += CipherSuite.getDheDsaSuites(v)
     return out
 
 
-def server_acceptable(ss, version):
-    """Suites the server (certificate credentials) is willing to use for `version`."""
+def server_acceptable(ss, version, auth=0):
+    """Suites the server is willing to use for `version` with certificate / verifierDB(+certificate) /
+    anonymous credentials."""
     v = ss.validate()
     out = []
-    out += CipherSuite.getTLS13Suites(v, version)
-    out += CipherSuite.getEcdsaSuites(v, version)
-    out += CipherSuite.getEcdheCertSuites(v, version)
-    out += CipherSuite.getDheCertSuites(v, version)
-    out += CipherSuite.getDheDsaSuites(v, version)
-    out += CipherSuite.getCertSuites(v, version)
+    if auth == 1:
+        out += CipherSuite.getSrpCertSuites(v, version)
+        out += CipherSuite.getSrpSuites(v, version)
+    elif auth == 2:
+        out += CipherSuite.getAnonSuites(v, version)
+        out += CipherSuite.getEcdhAnonSuites(v, version)
+    else:
+        out += CipherSuite.getTLS13Suites(v, version)
+        out += CipherSuite.getEcdsaSuites(v, version)
+        out += CipherSuite.getEcdheCertSuites(v, version)
+        out += CipherSuite.getDheCertSuites(v, version)
+        out += CipherSuite.getDheDsaSuites(v, version)
+        out += CipherSuite.getCertSuites(v, version)
     return CipherSuite.filterForVersion(out, minVersion=version, maxVersion=version)
 
 
@@ -136,12 +172,23 @@ class Live(object):
         p.csock.tap = lambda n, b: (cap_c.append(bytes(b)), b)[1]
         p.ssock.tap = lambda n, b: (cap_s.append(bytes(b)), b)[1]
         ckw = dict(session=sess, settings=cs, serverName=SNI[ev['sni']])
-        if ev['ccert']:
+        kind = ev.get('kind', 0)
+        if kind == 0 and ev['ccert']:
             ch, k = creds(CCERT[ev['ccert']])
             ckw.update(certChain=ch, privateKey=k)
-        skw = dict(certChain=self.chain, privateKey=self.key, settings=ss, reqCert=cfg['reqcert'],
-                   sessionCache=cache if cfg['usecache'] else None)
-        c, s = p.handshake(client_kw=ckw, server_kw=skw, client_kind='cert')
+        if kind == 1:
+            u = SRPU[ev.get('srp') or 1]
+            ckw.update(username=u, password=u + '-pw')
+        skw = dict(settings=ss, reqCert=cfg['reqcert'], sessionCache=cache if cfg['usecache'] else None)
+        auth = cfg.get('auth', 0)
+        if auth == 2:
+            skw.update(anon=True)
+            skw.pop('reqCert')
+        else:
+            skw.update(certChain=self.chain, privateKey=self.key)
+            if auth == 1:
+                skw.update(verifierDB=verifier_db())
+        c, s = p.handshake(client_kw=ckw, server_kw=skw, client_kind=KINDS[kind])
         return p, classify(c), classify(s), b''.join(cap_c), b''.join(cap_s), cs, ss
 
     # ---------------------------------------------------------------- events
@@ -158,9 +205,11 @@ class Live(object):
         # --- oracles: acceptable suites and what a full negotiation selects (shadow handshake)
         ss0 = server_settings(cfg)
         cs0 = mk_settings(ev['maxv'], ev['menu'], ev['ems'], ev['etm'])
-        ev['suites'] = client_suites(cs0)
-        ev['acc'] = server_acceptable(ss0, VER[v])
-        skey = (ev['maxv'], ev['menu'], ev['ems'], ev['etm'], ev['ccert'], ev['sni'],
+        ev.setdefault('kind', 0)
+        ev['srp'] = (ev.get('srp') or 1) if ev['kind'] == 1 else 0
+        ev['suites'] = client_suites(cs0, ev['kind'])
+        ev['acc'] = server_acceptable(ss0, VER[v], cfg.get('auth', 0))
+        skey = (ev['kind'], ev['srp'], cfg.get('auth', 0), ev['maxv'], ev['menu'], ev['ems'], ev['etm'], ev['ccert'], ev['sni'],
                 cfg['maxv'], cfg['menu'], cfg['ems'], cfg['etm'], cfg['reqcert'])
         if skey not in self.shadow:
             shadow_cfg = dict(cfg, usecache=False, keys=[], count=0)
@@ -189,6 +238,7 @@ class Live(object):
                      'ems': ch.getExtension(ExtensionType.extended_master_secret) is not None,
                      'etm': ch.getExtension(ExtensionType.encrypt_then_mac) is not None,
                      'sni': SNI.index(sn.decode()) if sn else 0,
+                     'srp': srp_handle(ch.srp_username),
                      'ticket': bytes(tk.ticket) if tk is not None and tk.ticket else b'',
                      'psk': bytes(psk.identities[0].identity) if psk is not None and psk.identities else b''}
             if set(hello['suites']) - {0x5600} != set(ev['suites']):
@@ -213,7 +263,8 @@ class Live(object):
                           conn=ci, w1=repr(w1), r1=repr(r1), w2=repr(w2), r2=repr(r2))
             ssn, csn = p.server.session, p.client.session
             sview = [ssn.cipherSuite, int(bool(ssn.extendedMasterSecret)), int(bool(ssn.encryptThenMAC)),
-                     SNI.index(ssn.serverName or None), fp_handle(ssn.clientCertChain), int(bool(ssn.sessionID))]
+                     SNI.index(ssn.serverName or None), fp_handle(ssn.clientCertChain), int(bool(ssn.sessionID)),
+                     srp_handle(ssn.srpUsername)]
             cview = [csn.cipherSuite, int(bool(csn.extendedMasterSecret)), int(bool(csn.encryptThenMAC)),
                      int(bool(csn.sessionID))]
             nt = [len(csn.tls_1_0_tickets or []), len(csn.tickets or [])]
@@ -229,10 +280,10 @@ class Live(object):
                 pred = o if (rec['cli_resumed'] or srv_res_wire) else None
                 self.objs.append({
                     'session': csn, 'conn': ci, 'srv': ev['srv'], 'ver': v,
-                    'params': sview[:5],
+                    'params': sview[:5] + [sview[6]],
                     'origin_ccert': pred['origin_ccert'] if pred else sview[4],
                     'inval_c': False, 'inval_s': False, 'inval_s_ticket': False, 'altered': False, 'revived': False,
-                    'rms_altered': False,
+                    'rms_altered': False, 'kind': ev['kind'],
                     'key': cfg['keys'][0] if (nt[0] or nt[1]) and cfg['keys'] else None,
                     'issued_q': (self.q // 4) * 4, 'stored_q': self.q if (cfg['usecache'] and v < 4) else None,
                     'sid': bytes(csn.sessionID)})
@@ -386,7 +437,7 @@ class Live(object):
             elif v < 4 and hello['sid'] and hello['sid'] == o['sid']:
                 offered = 'sid'
         rec['offered'] = offered
-        path = '%s-%s' % (offered, vc)
+        path = '%s-%s%s' % (offered, vc, {1: '-srp', 2: '-anon'}.get(ev.get('kind', 0), ''))
         cls = [vc, offered, 'resumed' if resumed else ('done' if done else 'abort%r' % (obs[:2],))]
         # ground truth about the offered session, as the property lists it
         conds = {}
@@ -418,6 +469,7 @@ class Live(object):
                 cons['suite-offered'] = p[0] in hello['suites']
                 cons['suite-acceptable'] = p[0] in ev['acc']
                 cons['sni'] = hello['sni'] == 0 or hello['sni'] == p[3]
+                cons['srp'] = hello['srp'] == 0 or hello['srp'] == p[5]
                 cons['etm'] = (not p[2]) or hello['etm']
                 cons['ems'] = bool(p[1]) == hello['ems']
             if v == 4 and offered == 'psk':
@@ -436,7 +488,7 @@ class Live(object):
                           % (rec['ci'], rec['srv_resumed_attr'], '' if wire else 'NOT ', offered), conn=rec['ci'])
             if not resumed:
                 # declined / nothing offered: the server may only know what was proved on THIS connection
-                proved = ev['ccert'] if cfg['reqcert'] else 0
+                proved = ev['ccert'] if (cfg['reqcert'] and ev['kind'] == 0 and cfg.get('auth', 0) != 2) else 0
                 if rec['sview'][4] != proved:
                     self.flag('unproved-client-identity:%s' % path,
                               'connection %d was not resumed (%s) but the server session has client identity %r; '
@@ -463,12 +515,13 @@ class Live(object):
                               'connection %d resumed although the ClientHello is inconsistent with the session (%s)' % (rec['ci'], k),
                               conn=rec['ci'], cons=cons)
             sv = rec['sview']
-            names = ['suite', 'ems', 'etm', 'sni', 'client-identity']
+            names = ['suite', 'ems', 'etm', 'sni', 'client-identity', 'srp-user']
             for i, n in enumerate(names):
                 want = o['params'][i]
-                if sv[i] != want:
+                got = sv[i] if i < 5 else sv[6]
+                if got != want:
                     self.flag('resumed-differs:%s:%s' % (n, path),
-                              'resumed connection %d has %s=%r, the original session had %r' % (rec['ci'], n, sv[i], want),
+                              'resumed connection %d has %s=%r, the original session had %r' % (rec['ci'], n, got, want),
                               conn=rec['ci'], got=sv, want=o['params'])
             if rec['srv_resumed'] != rec['cli_resumed']:
                 self.flag('ends-disagree-on-resumption:' + vc, 'client resumed=%s, server resumed=%s (wire)' % (rec['cli_resumed'], rec['srv_resumed']), conn=rec['ci'])
@@ -502,13 +555,14 @@ def rand_cfg(rng, maxv=None):
             'usecache': rng.random() < 0.6, 'maxage': rng.choice([10, 50, 200, 14400]),
             'cap': rng.choice([2, 3, 10000, 10000]),
             'ems': rng.random() < 0.8, 'etm': rng.random() < 0.8, 'reqcert': rng.random() < 0.4,
-            'menu': rng.choice([0, 0, 0, 1, 6, 7, 2, 5])}
+            'menu': rng.choice([0, 0, 0, 1, 6, 7, 2, 5]),
+            'auth': rng.choice([0, 0, 0, 0, 0, 0, 0, 1, 1, 2])}
 
 
 def mutate_cfg(rng, cfg, keyctr):
     c = dict(cfg)
     what = rng.choice(['rotate', 'rotate', 'replace', 'nokeys', 'life', 'count', 'cache', 'maxage', 'menu',
-                       'ems', 'etm', 'reqcert', 'maxv'])
+                       'ems', 'etm', 'reqcert', 'maxv', 'auth'])
     if what == 'rotate':
         c['keys'] = [keyctr] + c['keys'][:1]
     elif what == 'replace':
@@ -529,6 +583,8 @@ def mutate_cfg(rng, cfg, keyctr):
         c[what] = not c[what]
     elif what == 'maxv':
         c['maxv'] = rng.choice([1, 2, 3, 4])
+    elif what == 'auth':
+        c['auth'] = rng.choice([0, 0, 1, 2])
     return c, what
 
 
@@ -539,7 +595,8 @@ def gen_conn(rng, live, theme):
           'ems': theme['ems'] if rng.random() < 0.85 else (not theme['ems']),
           'etm': theme['etm'] if rng.random() < 0.85 else (not theme['etm']),
           'sni': theme['sni'], 'ccert': theme['ccert'] if rng.random() < 0.8 else rng.choice([0, 0, 1, 2]),
-          'offer': None}
+          'offer': None, 'kind': theme['kind'] if rng.random() < 0.85 else rng.choice([0, 1, 2]),
+          'srp': 1 if rng.random() < 0.85 else 2}
     if live.objs and rng.random() < 0.85:
         ev['offer'] = len(live.objs) - 1 if rng.random() < 0.6 else rng.randrange(len(live.objs))
         o = live.objs[ev['offer']]
@@ -547,7 +604,15 @@ def gen_conn(rng, live, theme):
             ev['srv'] = o['srv']
         s = o['session']
         if s.valid():
-            ev['sni'] = SNI.index(s.serverName or None)   # the client API insists on this
+            ev['sni'] = SNI.index(s.serverName or None)   # the client API insists on this ...
+            # ... and on the SRP user name: an SRP session can only be offered by an SRP client of that user
+            if s.srpUsername:
+                ev['kind'], ev['srp'] = 1, srp_handle(s.srpUsername)
+            elif ev['kind'] == 1:
+                ev['kind'] = o.get('kind', 0) if o.get('kind', 0) != 1 else 0
+    if ev['kind'] != 0:
+        ev['ccert'] = 0
+        ev['maxv'] = min(ev['maxv'], 3)          # SRP / anonymous suites exist up to TLS 1.2 only
     return ev
 
 
@@ -623,7 +688,8 @@ def run_history(job):
         theme = {'maxv': tv if rng.random() < 0.8 else rng.choice([1, 2, 3, 4]),
                  'menu': rng.choice([0, 0, 0, 1, 6, 7, 5]),
                  'ems': rng.random() < 0.8, 'etm': rng.random() < 0.8,
-                 'sni': rng.choice([0, 1, 1, 2]), 'ccert': rng.choice([0, 0, 1, 2])}
+                 'sni': rng.choice([0, 1, 1, 2]), 'ccert': rng.choice([0, 0, 1, 2]),
+                 'kind': cfgs[0].get('auth', 0)}
         live = Live(cfgs, seed)
         events = []
         keyctr = [10]
@@ -665,8 +731,9 @@ def event_lit(ev):
     e = ev['e']
     if e == 'conn':
         return ('EConn {| cp_srv := %d; cp_maxv := %d; cp_suites := %s; cp_ems := %s; cp_etm := %s; cp_sni := %d; '
-                'cp_srp := 0; cp_ccert := %d; cp_offer := %s; o_acc := %s; o_fsuite := %d; o_fcbc := %s; o_fhash := %d; o_falert := %d |}'
-                % (ev['srv'], ev['maxv'], zl(ev['suites']), b(ev['ems']), b(ev['etm']), ev['sni'], ev['ccert'],
+                'cp_srp := %d; cp_ccert := %d; cp_offer := %s; o_acc := %s; o_fsuite := %d; o_fcbc := %s; o_fhash := %d; o_falert := %d |}'
+                % (ev['srv'], ev['maxv'], zl(ev['suites']), b(ev['ems']), b(ev['etm']), ev['sni'], ev.get('srp', 0),
+                   ev['ccert'] if ev.get('kind', 0) == 0 else 0,
                    'None' if ev['offer'] is None else '(Some %d)' % ev['offer'],
                    zl(ev['acc']), ev['fsuite'], b(ev['fcbc']), ev['fhash'], ev['falert']))
     if e == 'close':
